@@ -17,7 +17,7 @@ def is_digest_name(name):
     return len(name) == 73 and name[32] == '_' and all(c in '0123456789abcdef' for c in name[:32] + name[33:])
 
 
-def check_references(w, why):
+def check_references(w, why, cat=None):
     """Every catalogue entry refers to an existing stored file -- at every point of the history (this is
     called between any two steps of the clients by the pipeline actor)."""
     import dawgie.context as ctx
@@ -25,7 +25,7 @@ def check_references(w, why):
 
     blobs = set(os.listdir(ctx.data_dbs))
     n = 0
-    for v in dawgie.db._prime_values():
+    for v in (cat.t['prime'].values() if cat is not None else dawgie.db._prime_values()):
         n += 1
         if v not in blobs:
             w.violate('C07', 'dangling_reference', why if why in ('mid-phase', 'crash') else 'quiet',
@@ -36,7 +36,7 @@ def check_references(w, why):
         w.probes['references_checked_during_update'] += 1
 
 
-def check_store(w, why, crashed=False):
+def check_store(w, why, crashed=False, cat=None):
     """C07 at a quiet point.
       * every stored file hashes to its own name;
       * no dangling reference;
@@ -46,7 +46,7 @@ def check_store(w, why, crashed=False):
     unreferenced blobs of un-acknowledged updates are allowed."""
     import dawgie.context as ctx
 
-    check_references(w, why)
+    check_references(w, why, cat=cat)
     if w.stopped:
         return
     blobs, staged = listing(w)
